@@ -147,6 +147,7 @@ func c12Run(w *W) {
 			w.Probe("err-tls-no-cert")
 			c.do("tls.SetOption(MaxRecvSize)", func() (interface{}, error) { return nil, l.SetOption(mangos.OptionMaxRecvSize, 1000) })
 			c.do("tls.Close", func() (interface{}, error) { return nil, l.Close() })
+			c12TLSCorrected(w, c, s, kind, "tls+tcp")
 		case 4: // wss listener without configuration
 			l, err := s.NewListener("wss://127.0.0.1:0/verif", nil)
 			if err != nil {
@@ -159,6 +160,7 @@ func c12Run(w *W) {
 			c.do("wss.GetOption", func() (interface{}, error) { return l.GetOption(mangos.OptionTLSConfig) })
 			c.do("wss.Close", func() (interface{}, error) { return nil, l.Close() })
 			w.Probe("err-wss-no-config")
+			c12TLSCorrected(w, c, s, kind, "wss")
 		case 5: // ipc listener on an impossible path; tcp on a bad address
 			l, err := s.NewListener("ipc:///nonexistent-verif-dir/x.sock", nil)
 			if err == nil {
@@ -786,4 +788,55 @@ func c12Real(w *W) {
 
 func init() {
 	register(&Scenario{Name: "corrected-retry-real-transports", Prop: "C12", Engine: "R", Weight: 1, Run: c12Real})
+}
+
+// c12TLSCorrected: a TLS listener on a fixed address goes through the whole
+// correction - no configuration, a configuration without certificate, the
+// proper one - on the same listener object; each failed Listen must leave the
+// address free (a second listener object can take it), and after the last
+// correction a peer attaches.
+func c12TLSCorrected(w *W, c *c12, s mangos.Socket, kind, tran string) {
+	if w.simFallback(tran) != tran || w.Failed() {
+		return
+	}
+	a := w.Addr(tran)
+	srv, cli := simTLS()
+	l, err := s.NewListener(a, nil)
+	if err != nil {
+		w.Failf("HARNESS/newlistener", "%s: %v", a, err)
+		return
+	}
+	r1 := c.do(tran+" Listen(no config, fixed port)", func() (interface{}, error) { return nil, l.Listen() })
+	c.do(tran+" SetOption(TLSConfig without certificate)", func() (interface{}, error) { return nil, l.SetOption(mangos.OptionTLSConfig, &tls.Config{}) })
+	r2 := c.do(tran+" Listen(no certificate, fixed port)", func() (interface{}, error) { return nil, l.Listen() })
+	if (r1.Returned() && r1.Err == nil) || (r2.Returned() && r2.Err == nil) {
+		w.Failf("HARNESS/tls", "%s: Listen without a usable TLS configuration succeeded", tran)
+		return
+	}
+	if w.Choose(simrt.SProg, 2) == 0 {
+		// another listener object takes the address meanwhile: the failed attempts hold nothing
+		s2 := w.Sock(kind)
+		r := c.do(tran+" other socket Listen(same address)", func() (interface{}, error) { return nil, s2.ListenOptions(a, w.EpOpts(a, true, nil)) })
+		if r.Returned() && r.Err != nil {
+			w.Failf("C12/failed-listen-holds-address:"+tran, "%s: Listen on %s failed twice for its TLS configuration (%v, %v); another socket's Listen on that address now returns %v", tran, a, r1.Err, r2.Err, r.Err)
+		}
+		c.do(tran+" other socket Close", func() (interface{}, error) { return nil, s2.Close() })
+		w.Settle()
+	}
+	c.do(tran+" SetOption(TLSConfig, corrected)", func() (interface{}, error) { return nil, l.SetOption(mangos.OptionTLSConfig, srv) })
+	r3 := c.do(tran+" Listen(corrected)", func() (interface{}, error) { return nil, l.Listen() })
+	if r3.Returned() && r3.Err != nil {
+		w.Failf("C12/retry-failed", "%s: Listen on %s failed for its TLS configuration (%v, then %v); with the configuration corrected the retry on the same listener returns %v", tran, a, r1.Err, r2.Err, r3.Err)
+		return
+	}
+	ps := w.Sock(peerKind[kind])
+	dc := c.do(tran+" peer.Dial(corrected listener)", func() (interface{}, error) {
+		return nil, ps.DialOptions(a, map[string]interface{}{mangos.OptionDialAsynch: false, mangos.OptionTLSConfig: cli})
+	})
+	if dc.Returned() && dc.Err != nil {
+		w.Failf("C12/retry-failed", "%s: the corrected listener on %s accepts nobody: %v", tran, a, dc.Err)
+	}
+	c.do(tran+" peer.Close", func() (interface{}, error) { return nil, ps.Close() })
+	c.do(tran+" Listener.Close", func() (interface{}, error) { return nil, l.Close() })
+	w.Probe("tls-listener-corrected-step-by-step")
 }
